@@ -196,6 +196,21 @@ Proof.
   destruct (Z.ltb_spec (hdr + plen + overhead) mn) as [Hlt|Hge]; f_equal; lia.
 Qed.
 
+(** the open finding size-max/udp-min, precisely: with PacketSize 0 the QUIC packet and its
+    Length field do not depend on UDPDatagramMinSize at all; the datagram exceeds a maximum
+    packet size that the packet respects exactly when the (buffer-capped) UDP minimum does,
+    and then the datagram IS that minimum -- all of the excess is padding behind the packet *)
+Lemma udp_min_excess cl hdr pnLen plen udpMin maxSize :
+  hdr + plen + overhead <= bufCap -> hdr + plen + overhead <= maxSize ->
+  let mn := Z.min (if udpMin =? 0 then dfltUDPMin else udpMin) bufCap in
+  exists dl, appendInitial (cl, 0) hdr pnLen plen udpMin
+             = AppOk (pnLen + plen + overhead) (hdr + plen + overhead) dl false /\
+             (maxSize < dl <-> maxSize < mn) /\ (maxSize < dl -> dl = mn).
+Proof.
+  intros Hcap Hmax mn. rewrite append_udp_min by assumption. fold mn.
+  eexists. split; [reflexivity|]. split; lia.
+Qed.
+
 (** output never exceeds the packet buffer, or an error is returned; releasing the buffer
     never panics *)
 Lemma append_fits_or_error plan hdr pnLen plen udpMin :
